@@ -21,7 +21,6 @@ for d in seeded/*/; do
   if [ "$rc" != "1" ]; then
     if [ "$id" = "r2-C04-B" ]; then status="not-caught(documented)";
     elif [ "$id" = "r5-C04-A" ]; then status="neutral-since-fix-6af316e(documented)";
-    elif [ "$id" = "r6-C15-A" ]; then status="not-caught(documented)";
     else status="MISSED(rc=$rc)"; miss=1; fi
   fi
   echo "$id $prop $status $(echo "$out" | sed -E 's/.*(invariant=[^ ]+ signature=[^ ]+).*/\1/' | cut -c1-150)"
